@@ -1464,6 +1464,24 @@ unsigned char* SZ_compress_customize(const char* cmprName, void* userPara, int d
 unsigned char* SZ_compress_customize_threadsafe(const char* cmprName, void* userPara, int dataType, void* data, size_t r5, size_t r4, size_t r3, size_t r2, size_t r1, size_t *outSize, int *status)
 {
 	unsigned char* result = NULL;
+	//the quantization state is derived from the configuration for every call, as in SZ_compress_args: a decompression
+	//before this call leaves the mode and interval count of the stream it decoded (possibly 0) in exe_params
+	if(exe_params!=NULL && confparams_cpr!=NULL)
+	{
+		if(confparams_cpr->quantization_intervals > 0)
+		{
+			updateQuantizationInfo(confparams_cpr->quantization_intervals);
+			exe_params->optQuantMode = 0;
+		}
+		else
+		{
+			exe_params->intvCapacity = confparams_cpr->maxRangeRadius*2;
+			exe_params->intvRadius = confparams_cpr->maxRangeRadius;
+			exe_params->optQuantMode = 1;
+		}
+		exe_params->SZ_SIZE_TYPE = sizeof(size_t);
+	}
+
 	//correct dimension if needed for the SZ kernels, as SZ_compress_args and the decompression side do
 	//(SZ_Transpose and ExaFEL work on the caller's tuple, as SZ_decompress_customize does)
 	size_t _r[5];
